@@ -71,6 +71,8 @@ struct St {
     step_no: BTreeMap<u64, u64>,  // scenario -> steps entered in the current attempt
     parser_allowed: usize,
     parser_waker: Option<Waker>,
+    next_wid: u64,                // World instances are numbered in the order `World::new()` creates them
+    wlog: Vec<[u64; 5]>,          // [scenario, attempt, which (0 before hook, 1 step, 2 after hook), World id | 0, mutations seen]
 }
 
 thread_local! {
@@ -120,20 +122,42 @@ impl Future for Gate {
     }
 }
 
+/// The World carries an instance number and counts the callbacks that have mutated it: every callback records which instance
+/// it was handed and how many mutations that instance had seen (C09 on whole concurrent runs: one World per attempt, the
+/// state threads through the attempt's callbacks, no instance is ever seen by two attempts or scenarios).
 #[derive(Debug)]
-struct W;
+struct W {
+    id: u64,
+    count: u64,
+}
 impl World for W {
     type Error = std::convert::Infallible;
     async fn new() -> Result<Self, Self::Error> {
-        Ok(W)
+        let id = ST.with(|s| {
+            let mut s = s.borrow_mut();
+            s.next_wid += 1;
+            s.next_wid
+        });
+        Ok(W { id, count: 0 })
     }
+}
+fn wlog(sid: u64, k: u64, which: u64, w: Option<&mut W>) {
+    let (id, c) = match w {
+        Some(w) => {
+            let c = w.count;
+            w.count += 1;
+            (w.id, c)
+        }
+        None => (0, 0),
+    };
+    ST.with(|s| s.borrow_mut().wlog.push([sid, k, which, id, c]));
 }
 
 fn scen_of(text: &str) -> u64 {
     text.split(' ').nth(1).and_then(|n| n.parse().ok()).unwrap_or(0)
 }
 
-fn gated_step(_: &mut W, ctx: step::Context) -> LocalBoxFuture<'_, ()> {
+fn gated_step(w: &mut W, ctx: step::Context) -> LocalBoxFuture<'_, ()> {
     async move {
         let sid = scen_of(&ctx.step.value);
         // which attempt of the scenario is this, and which of its steps
@@ -157,6 +181,7 @@ fn gated_step(_: &mut W, ctx: step::Context) -> LocalBoxFuture<'_, ()> {
             };
             (k, last, s.fails.get(&sid).copied().unwrap_or(0), s.yields.get(&sid).copied().unwrap_or(0))
         });
+        wlog(sid, k, 1, Some(w));
         verif_trace::record("cb", sid, k * 2);
         Gate { key: sid }.await;
         // attempts released together do not complete in lock-step: some suspend a few more times
@@ -177,7 +202,7 @@ fn after_hook<'a>(
     _: Option<&'a gherkin::Rule>,
     sc: &'a gherkin::Scenario,
     _: &'a cucumber::event::ScenarioFinished,
-    _: Option<&'a mut W>,
+    w: Option<&'a mut W>,
 ) -> LocalBoxFuture<'a, ()> {
     let sid = sc.position.line as u64;
     let (k, n) = ST.with(|s| {
@@ -189,6 +214,7 @@ fn after_hook<'a>(
         };
         (k, s.afails.get(&sid).copied().unwrap_or(0))
     });
+    wlog(sid, k, 2, w);
     let gated = ST.with(|s| s.borrow().after_gated);
     async move {
         if gated {
@@ -207,7 +233,7 @@ fn before_hook<'a>(
     _: &'a gherkin::Feature,
     _: Option<&'a gherkin::Rule>,
     sc: &'a gherkin::Scenario,
-    _: &'a mut W,
+    w: &'a mut W,
 ) -> LocalBoxFuture<'a, ()> {
     let sid = sc.position.line as u64;
     let (k, (n, eager)) = ST.with(|s| {
@@ -219,6 +245,7 @@ fn before_hook<'a>(
         s.step_no.insert(sid, 0);
         (k, s.bfails.get(&sid).copied().unwrap_or((0, false)))
     });
+    wlog(sid, k, 0, Some(w));
     if eager && k < n {
         std::panic::panic_any(format!("panic#{}", 70 + k));
     }
@@ -595,5 +622,6 @@ pub fn run(case: &Value) -> Value {
         "rounds": rounds,
         "hook_calls_during_run": during,
         "hook_restored": !done || after_marker == during + 1,
+        "worlds": ST.with(|s| s.borrow().wlog.iter().map(|r| r.to_vec()).collect::<Vec<_>>()),
     })
 }
